@@ -15,7 +15,8 @@
 // an optional first token `U` marks a history that mutates a handle after a snapshot was taken
 // from it (sharing with the snapshot is then by design; only model agreement is checked).
 //
-// observed: records separated by one space, the first for the initial state, then one per step:
+// observed: `probe:<d><g>` (see c03Probe), then records separated by one space, the first for the
+// initial state, then one per step:
 //   <res>/<obs 0>/<obs 1>/...       res = init | ok | ok:<deleted hex>:<allDeleted 0|1> | panic
 //   obs j = "=" when Hash() and Entries() of handle j are what they were in the previous record,
 //           else <root hash hex>#<k>:<v>,<k>:<v>,...   (entries sorted by key; "." when empty)
@@ -134,6 +135,31 @@ func c03Step(hs *[]*InMemoryTrie, tok string) (res string) {
 	return "ok"
 }
 
+// c03Probe reports which of two pending repairs of Delete/Get (property C02) the tree under test
+// contains, so that the driver replays the matching model variant:
+//   first digit  1: Delete(0x01) on {0x0123, 0x0456} leaves 0x0123 in place
+//   second digit 1: Get(0x01) on {0x012345, 0x012367, 0x0456} (a nested branch) returns nil
+func c03Probe() string {
+	d, g := "0", "0"
+	t := NewEmptyTrie()
+	_ = t.Put([]byte{0x01, 0x23}, []byte{1})
+	_ = t.Put([]byte{0x04, 0x56}, []byte{2})
+	_ = t.Delete([]byte{0x01})
+	if t.Get([]byte{0x01, 0x23}) != nil {
+		d = "1"
+	}
+	u := NewEmptyTrie()
+	_ = u.Put([]byte{0x01, 0x23, 0x45}, []byte{1})
+	_ = u.Put([]byte{0x01, 0x23, 0x67}, []byte{2})
+	_ = u.Put([]byte{0x04, 0x56}, []byte{3})
+	// make the nested branch carry a value so that a wrong read is visible
+	_ = u.Put([]byte{0x01, 0x23}, []byte{4})
+	if u.Get([]byte{0x01}) == nil {
+		g = "1"
+	}
+	return "probe:" + d + g
+}
+
 func c03Run(in string) string {
 	toks := strings.Split(in, " ")
 	if len(toks) > 0 && toks[0] == "U" {
@@ -142,6 +168,7 @@ func c03Run(in string) string {
 	hs := []*InMemoryTrie{NewEmptyTrie()}
 	var prev []string
 	var out strings.Builder
+	out.WriteString(c03Probe() + " ")
 	record := func(res string) bool {
 		out.WriteString(res)
 		for j, t := range hs {
